@@ -303,7 +303,15 @@ def explore_slice(h, sl, deadline, known_regions=(), max_cex=1, validate_every=7
                                                "choices": list(c.choice_log), "decisions": c.pos,
                                                "obligations": [o[0] for o in obs_terms],
                                                "verdict": "sat" if r == z3.sat else str(r)})
-                    if r == z3.unsat and res["reached"] % validate_every == 1:
+                    validate = r == z3.unsat and res["reached"] % validate_every == 1
+                    if validate and active:
+                        # validate with inputs OUTSIDE the listed known-finding regions (inside them obligations are expected to fail)
+                        if c.check(*not_known) == z3.sat:
+                            inputs = extract_inputs(c, c.solver.model())
+                            path_model = c.solver.model()
+                        else:
+                            validate = False
+                    if validate:
                         failed_native, nc = native_run(h, sl, inputs, list(c.choice_log))
                         ok = not nc.error and not nc.assumption_failed
                         if ok:
